@@ -145,11 +145,15 @@ class Run:
             with open(part, "w") as fh:
                 fh.writelines(lines[i:i + chunk])
             chunks.append((part, len(lines[i:i + chunk])))
-        for part, cnt in chunks:
-            if cnt == 0:
-                continue
+        import concurrent.futures as cf
+
+        def one(pc):
+            part, cnt = pc
             cfg = "INIT Init\nNEXT Next\nCONSTANTS\n  ObsFile = \"%s\"\n%s\nINVARIANT Report\nCHECK_DEADLOCK FALSE\n" % (part, constants)
-            out = self.tlc(module, cfg, workers=workers, timeout=timeout, role="B1")
+            return part, cnt, self.tlc(module, cfg, workers=workers, timeout=timeout, role="B1")
+        with cf.ThreadPoolExecutor(max_workers=6) as ex:
+            results = list(ex.map(one, [pc for pc in chunks if pc[1] > 0]))
+        for part, cnt, out in results:
             m = re.search(r'SUMMARY\|(\d+)', out)
             if not m or int(m.group(1)) != cnt:
                 raise Infra("B1 validation of %s did not consume all %d records:\n%s" % (part, cnt, out[-3000:]))
@@ -245,7 +249,7 @@ class Run:
             "violations": violations,
         }
         ev["coverage"].update(self.extra)
-        if not self.replay:
+        if not self.replay and not os.environ.get("VERIF_NOEVIDENCE"):
             os.makedirs(os.path.join(VERIF, "evidence"), exist_ok=True)
             with open(os.path.join(VERIF, "evidence", self.prop + ".json"), "w") as fh:
                 json.dump(ev, fh, indent=1, sort_keys=True, default=str)
